@@ -46,6 +46,7 @@ type c15nObs struct {
 	tier    string
 	st      *c15nStats
 	written func(tier, op, key string)
+	onNX    func(key string, ok bool) // optional: told about every completed SetNX on a slot key
 }
 
 func (o *c15nObs) SetNX(key string, value any, ttl time.Duration) (bool, error) {
@@ -55,6 +56,9 @@ func (o *c15nObs) SetNX(key string, value any, ttl time.Duration) (bool, error) 
 			o.st.nxTrue.Add(1)
 		} else {
 			o.st.nxFalse.Add(1)
+		}
+		if o.onNX != nil {
+			o.onNX(key, ok)
 		}
 	}
 	return ok, err
@@ -761,4 +765,199 @@ func TestVerifC15NodeLease(t *testing.T) {
 	wg.Wait()
 	run.Floor("lease_scenarios_decided", int64(2*len(tls)))
 	run.Floor("heartbeats_observed", int64(2*len(tls)))
+}
+
+// TestVerifC15NodeJanitor — memory store with its janitor running (CleanupExpired in a
+// tight loop on its own goroutine, 20 000 unexpired runtime entries so that a sweep
+// takes a while) while N allocators compete for the lowest node-id slots. Expired but
+// unswept leases exist all the time: leases of "nodes that crashed long ago" are written
+// with a 1 ms TTL before the start, and a holder's lease "lapses" during the run (the
+// harness rewrites it with a 1 ms TTL; recorded as a Release whose interval spans the
+// expiry: from before the rewrite until after a sleep of twice the TTL). Such a lease is
+// legitimately re-acquired by the next SetNX. Oracle unchanged (live-set model).
+func TestVerifC15NodeJanitor(t *testing.T) {
+	t.Parallel()
+	vk.Quiet()
+	run := vk.Start(t, "C15", "node-janitor")
+	defer run.Finish()
+	run.Rule("case = (memory store + 20000 unexpired runtime entries, CleanupExpired in a tight loop, D expired leases of crashed nodes on the lowest slots, N in {2,4,8} allocator goroutines: AllocateNodeID with a fresh allocator / Release / lease lapse (rewritten with 1 ms TTL, recorded as a Release spanning the expiry)); random yields at every storage op; distinct = (N,D,subseed)")
+	r := run.Rand("janitor")
+	reps := run.Pick(4, 24)
+	const lapseTTL = time.Millisecond
+	fam := &c15nStats{}
+	planned, decided := 0, 0
+	for _, n := range []int{2, 4, 8} {
+		for rep := 0; rep < reps; rep++ {
+			planned++
+			if run.Violations() >= 20 {
+				continue
+			}
+			sub := r.Int63()
+			dead := r.Intn(6)
+			cs := map[string]any{"allocators": n, "expired_leases_of_crashed_nodes": dead, "rounds": 30, "subseed": sub}
+			run.Case(fmt.Sprintf("node-janitor|N=%d|D=%d", n, dead), cs)
+			ok := func() bool {
+				ctx, cancel := context.WithCancel(context.Background())
+				defer cancel()
+				mem := memory.New(ctx)
+				for i := 0; i < 20000; i++ {
+					_ = mem.Set(fmt.Sprintf("tunnox:runtime:junk:%d", i), "x", time.Hour)
+				}
+				var lapsed sync.Map
+				var sweeping atomic.Bool
+				var sweeps, reacq, reacqSweep atomic.Int64
+				obs := &c15nObs{FullStorage: mem, tier: "mem", st: fam, onNX: func(key string, ok bool) {
+					if !ok {
+						return
+					}
+					if _, was := lapsed.LoadAndDelete(key); was {
+						reacq.Add(1)
+						if sweeping.Load() {
+							reacqSweep.Add(1)
+						}
+					}
+				}}
+				gs := vk.NewGated("mem", obs)
+				var inj atomic.Int64
+				gs.SetHook(c15nYieldHook(mrand.New(mrand.NewSource(sub^0x1e1d)), 0, &inj))
+				for i := NodeIDMin; i < NodeIDMin+dead; i++ {
+					id := c15nSlot(i)
+					lapsed.Store(NodeIDKeyPrefix+id, true)
+					_ = mem.Set(NodeIDKeyPrefix+id, id, lapseTTL)
+				}
+				time.Sleep(2 * lapseTTL)
+				h := &c15nHist{}
+				var stop atomic.Bool
+				stopJ := make(chan struct{})
+				jDone := make(chan struct{})
+				go func() {
+					defer close(jDone)
+					for {
+						select {
+						case <-stopJ:
+							return
+						default:
+						}
+						sweeping.Store(true)
+						_ = mem.CleanupExpired()
+						sweeping.Store(false)
+						sweeps.Add(1)
+						runtime.Gosched()
+					}
+				}()
+				type held struct {
+					a  *NodeIDAllocator
+					id string
+				}
+				worker := func(w int) {
+					defer func() {
+						if p := recover(); p != nil {
+							run.Violation("C15:panic|op=node-allocate|backend=memory+janitor", map[string]any{"case": cs, "panic": fmt.Sprint(p)})
+						}
+					}()
+					rr := mrand.New(mrand.NewSource(sub*131 + int64(w)))
+					var own []held
+					for i := 0; i < 30 && !stop.Load(); i++ {
+						if len(own) > 0 && (len(own) >= 2 || rr.Intn(100) < 50) {
+							x := own[0]
+							own = own[1:]
+							if rr.Intn(100) < 60 {
+								// the lease lapses (its holder is gone; Release is never called)
+								key := NodeIDKeyPrefix + x.id
+								op := c15nOp{ID: x.id, Thread: w, Via: "lease-lapsed", Call: h.now()}
+								lapsed.Store(key, true)
+								if err := gs.Set(key, x.id, lapseTTL); err != nil {
+									lapsed.Delete(key)
+									continue
+								}
+								time.Sleep(2 * lapseTTL)
+								op.Ret = h.now()
+								op.OK = true
+								h.add(op)
+								run.Count("leases_lapsed", 1)
+							} else {
+								op := c15nOp{ID: x.id, Thread: w, Call: h.now()}
+								err := x.a.Release()
+								op.Ret = h.now()
+								op.OK = err == nil
+								h.add(op)
+								run.Count("release_ok", 1)
+							}
+							continue
+						}
+						a := NewNodeIDAllocator(gs)
+						op := c15nOp{Alloc: true, Thread: w, Call: h.now()}
+						id, err := a.AllocateNodeID(ctx)
+						op.Ret = h.now()
+						if err != nil {
+							op.Err = err.Error()
+							h.add(op)
+							run.Count("allocate_failed", 1)
+							continue
+						}
+						op.OK, op.ID = true, id
+						h.add(op)
+						run.Count("allocate_ok", 1)
+						own = append(own, held{a, id})
+					}
+				}
+				done := make(chan struct{})
+				go func() {
+					defer close(done)
+					var wg sync.WaitGroup
+					for w := 0; w < n; w++ {
+						wg.Add(1)
+						go func(w int) { defer wg.Done(); worker(w) }(w)
+					}
+					wg.Wait()
+				}()
+				conclusive := true
+				select {
+				case <-done:
+				case <-time.After(120 * time.Second):
+					stop.Store(true)
+					run.Count("watchdog", 1)
+					conclusive = false
+					select {
+					case <-done:
+					case <-time.After(20 * time.Second):
+					}
+				}
+				close(stopJ)
+				<-jDone
+				run.Count("sweeps", sweeps.Load())
+				run.Count("lapsed_lease_reacquired", reacq.Load())
+				run.Count("lapsed_lease_reacquired_while_sweep_running", reacqSweep.Load())
+				if !conclusive {
+					return false
+				}
+				h.mu.Lock()
+				ops := append([]c15nOp(nil), h.ops...)
+				h.mu.Unlock()
+				bad, unknown, parts := c15nCheck(ops)
+				run.Count("history_ops", int64(len(ops)))
+				run.Count("partitions_checked", int64(parts))
+				run.Count("checker_timeouts", int64(unknown))
+				for _, p := range bad {
+					run.Violation("C15:duplicate-live-node-id|backend=memory|janitor=running", map[string]any{"case": cs, "id": p[0].ID, "witness": c15nWitness(p)})
+				}
+				return unknown == 0
+			}()
+			if ok {
+				decided++
+			}
+			run.Eval(1)
+			run.Distinct(fmt.Sprintf("N=%d|D=%d|%d", n, dead, sub))
+			run.Sample(cs)
+		}
+	}
+	run.Count("collisions", fam.nxFalse.Load())
+	if decided == planned || (run.Counter("watchdog") == 0 && run.Violations() >= 20) {
+		run.Count("all_cases_decided", 1)
+	}
+	run.Floor("all_cases_decided", 1)
+	run.Floor("sweeps", 200)
+	run.Floor("leases_lapsed", 50)
+	run.Floor("lapsed_lease_reacquired", 30)
+	run.Floor("lapsed_lease_reacquired_while_sweep_running", 10)
 }
